@@ -1,3 +1,5 @@
+//go:build c16 || allprops
+
 package main
 
 import (
